@@ -26,7 +26,7 @@ func c06LeaderProg(r *rand.Rand, client, n int, big bool) []Cmd {
 			p = append(p, hookCmd(r, g))
 		case x < 3:
 			p = append(p, scriptCmd(r, g))
-		case x < 5 && big:
+		case x < 9 && big:
 			p = append(p, Cmd{Args: []string{"SET", "kbig", fmt.Sprintf("b%d", r.Intn(6)), "STRING", fmt.Sprintf("v%d-", g.uniq()) + strings.Repeat("x", 50000+r.Intn(30000))}})
 		default:
 			p = append(p, g.cmd(r))
@@ -283,6 +283,7 @@ func runC06(w *World) {
 
 	// faults
 	nfaults := w.knob("nfaults", 4)
+	leaderCrashes := w.knob("leadercrash", 3) / 2 // one run in three may crash the leader once
 	var pendingRestart bool
 	w.faults = append(w.faults, func() []action {
 		if nfaults <= 0 || pendingRestart {
@@ -310,6 +311,24 @@ func runC06(w *World) {
 				d := []time.Duration{300 * time.Millisecond, time.Second, 3 * time.Second}[w.ch.choose(3)]
 				c.a.stalledUntil = w.now() + d
 				c.b.stalledUntil = w.now() + d
+			}})
+		}
+		if leaderCrashes > 0 && !L.inst.dead && L.inst.atPoint == "" {
+			acts = append(acts, action{kind: akFault, key: "crash leader", w: 1, run: func() {
+				nfaults--
+				leaderCrashes--
+				w.stat("fault.crash_leader", 1)
+				// crash, verify the surviving log against the acknowledged history (C03's
+				// oracle), restart; the follower has to find its way back
+				if !rc.stopAndRestart(false) {
+					return
+				}
+				hookRename(rc.hc, func() *Inst { return L.inst })
+				dialAck = map[string]int{}
+				dialStep = map[string]int{}
+				kConn = 0
+				seenGrants = 0
+				cmpOK = false
 			}})
 		}
 		if F.inst != nil && !F.inst.dead {
